@@ -67,6 +67,9 @@ def run(ctx):
         programs = [p for i, p in enumerate(programs) if (i + ctx.seed) % 10 == 0]
         res2 = vlib.model_check(ctx, "MC_Sdt_quick.cfg", "MC_Sdt.tla", workers=8)
         programs += res2.replays
+    # long behaviours of the specification itself (TLC simulation of MC_Sdt, 41 operations each)
+    sims = vlib.simulate(ctx, "MC_Sdt_sim.cfg", "MC_Sdt.tla", num=60 if th else 8, depth=41, seed=ctx.seed)
+    programs = programs + sims
     ctx.samples = [programs[0], programs[len(programs) // 2]]
     # (b') seeded long histories: every offset incl. header and checksum byte, refused writes, huge offsets
     for i in range(40 if th else 14):
